@@ -127,21 +127,22 @@ def run(chk, repo: Repo):
     chk.rule("C20-R5", "1-D scaling dx**order; 2-D Kronecker stacking identical in both operator classes", floor=3)
     chk.rule("C20-R6", "lazy caches in the MRF/operator classes are reset by every writer of their inputs", floor=0)
     pf = repo.cls(f"{OP}:PrecisionFiniteDifference")
-    cp = repo.method(pf, "_create_prec_matrix")[1]
+    # the matrix the constructor stores, wherever it is assembled (constructor with its private helpers inlined)
+    cp = repo.method(pf, "__init__")[1]
     from .common import canon_fn
     from ..flow import Expander
-    exq = Expander(canon_fn(repo, pf, cp, 1))
+    exq = Expander(canon_fn(repo, pf, cp, 2))
     asg = [n for n in exq.cfg.nodes if n.kind == "stmt" and isinstance(n.ast, ast.Assign) and path_of(n.ast.targets[0]) == "self._matrix"]
     ok = len(asg) == 1
     shown = "?"
     if ok:
-        e = exq.expand(asg[0].ast.value, asg[0])
+        e = exq.expand(asg[0].ast.value, asg[0], stop=frozenset({"self._diff_op"}))
         shown = unparse(e)
         while isinstance(e, ast.Call) and isinstance(e.func, ast.Attribute) and e.func.attr in ("tocsc", "tocsr") and not e.args:
             e = e.func.value
         ok = isinstance(e, ast.BinOp) and isinstance(e.op, ast.MatMult) and isinstance(e.left, ast.Attribute) and e.left.attr == "T" \
             and _norm(e.left.value) == _norm(e.right) and _norm(e.right) in ("self._diff_op", "self._diff_op.get_matrix()")
-    chk.add("C20-R1", f"{pf.qual}._create_prec_matrix", ok, site(repo, cp), "D.T @ D",
+    chk.add("C20-R1", f"{pf.qual}/precision-matrix", ok, site(repo, cp), "D.T @ D",
             f"precision matrix is `{shown}`, not D.T @ D of the stored difference operator", cp)
     init = repo.method(pf, "__init__")[1]
     # order dispatch as a table: for each value of `order` the path through __init__ is followed and the value stored in self._diff_op read off
@@ -186,7 +187,7 @@ def run(chk, repo: Repo):
             x = func_params(f)[1]
             outs = closed_outcomes(repo, ci, f, project=lambda e: e)
             from ..pathtable import walk_all
-            fv = canon_fn(repo, ci, f, 1)
+            fv = canon_fn(repo, ci, f, 2)           # private helpers (a shared `differences of the shifted variable` method) inlined
             seen_d = [0]
 
             class _D(ast.NodeTransformer):
@@ -370,6 +371,13 @@ def run(chk, repo: Repo):
     for ci, d in ((fo, "np.vstack([-one_vec,one_vec])"), (so, "np.vstack([-one_vec,2*one_vec,-one_vec])")):
         f = ci.lookup("_create_diff_matrix")[1] if ci.lookup("_create_diff_matrix") else None
         if f is not None:
-            chk.add("C20-R5", f"{ci.qual}._create_diff_matrix/stencil", f"diags={d}" in _norm(f), site(repo, f), f"stencil diagonals {d}", "stencil diagonals changed", f)
+            # the value of `diags` with module-level literal stencils folded and comprehensions over them unrolled
+            from .common import module_literal_nodes, LiteralUnroll, assigned_values
+            lu = LiteralUnroll(module_literal_nodes(repo, ci.module.rel))
+            vals = []
+            for n_ in ast.walk(f):
+                if isinstance(n_, ast.Assign) and path_of(n_.targets[0]) == "diags":
+                    vals.append(_norm(lu.visit(_clone(n_.value))))
+            chk.add("C20-R5", f"{ci.qual}._create_diff_matrix/stencil", vals == [d], site(repo, f), f"stencil diagonals {d}", f"stencil diagonals changed: {vals}", f)
     from ..cachecoh import cache_coherence
     cache_coherence(chk, repo, "C20-R6", ("cuqi/distribution/_gmrf.py", "cuqi/distribution/_lmrf.py", "cuqi/distribution/_cmrf.py", "cuqi/operator/", "cuqi/implicitprior/_regularizedGMRF.py"))
